@@ -20,11 +20,13 @@
   configuration satisfying `CfgOk` (class ids < 8, ordered policy = all policies of the
   repository incl. zero-slot classes and the zeroed policy, tree size < 2^19).
 
-  Remaining (carried by the correspondence): the initialisation programs of the lower allocator
-  for every frame count (C06), `tree_stats`/`validate`/`stats_at(order 0)`/`is_free`, frame
-  count 0, and configurations outside `CfgOk` (none in the repository).
+  `new_then_history_never_panics`: including the construction itself (free-all / allocate-all,
+  every frame count incl. 0, arbitrary buffer contents).
+
+  Remaining (carried by the correspondence): `Init::Recover` (C05), `tree_stats`/`validate`/
+  `stats_at(order 0)`/`is_free`, and configurations outside `CfgOk` (none in the repository).
 -/
-import LLFreeV.Proofs.UpperInit
+import LLFreeV.Proofs.EndToEnd
 namespace LLFree.C09
 open LLFree
 
@@ -69,6 +71,15 @@ theorem history_outcome_ok (c : Cfg) (ok : CfgOk c) (calls : List Call) (hvalid 
     (inv : LowerInv c m) (hsz : m.trees.size = c.ntrees) (hss : m.slots.size = c.nslots) (habs : ∀ s, SlotAbsent m s) :
     ∃ m', runSolo (do Trees.init c; runCalls c calls) m = (m', .ok ()) := by
   obtain ⟨m', _, h, _⟩ := history_never_panics c ok calls hvalid m inv hsz hss habs
+  exact ⟨m', h⟩
+
+
+/-- the same from `LLFree::new` on: free-all / allocate-all construction for every frame count
+    (including 0), then any history -/
+theorem new_then_history_never_panics (c : Cfg) (ok : CfgOk c) (init : Init) (hinit : init = .freeAll ∨ init = .allocAll)
+    (calls : List Call) (hvalid : ∀ x ∈ calls, x.valid c) (m : Mem) (hs : ShapeOk c m) (habs : ∀ s, SlotAbsent m s) :
+    ∃ m', runSolo (do initProg c init; runCalls c calls) m = (m', .ok ()) := by
+  obtain ⟨m', _, h, _⟩ := LLFree.new_then_history ok init hinit calls hvalid m hs habs
   exact ⟨m', h⟩
 
 end LLFree.C09
